@@ -76,6 +76,21 @@ theorem derive_total (d : Def) :
     (genJson bindFresh d).scoped = true ∧ (genString bindFresh d).scoped = true :=
   ⟨genJson_scoped d, genString_scoped d⟩
 
+/-- **hygiene against the package, partial**: the calls of the generated bodies keep meaning the runtime helpers
+    PROVIDED no top-level function of the package the type is defined in is spelled like a helper
+    (`HelperFree tops`).  Partial because the hypothesis is needed: `name_resolution.rs` resolves the bare name the
+    derive emits to a definition of the current package before it looks at the builtins, and nothing rejects such
+    a definition — the examples below are the capture (known finding `helper-captured-by-package-function`). -/
+theorem derive_hygienic_partial (d : Def) (tops : List String) (h : ∀ f ∈ helperNames, f ∉ tops) :
+    (genJson bindFresh d).hygienic tops = true ∧ (genString bindFresh d).hygienic tops = true :=
+  ⟨genJson_hygienic d tops h, genString_hygienic d tops h⟩
+
+example : (genJson bindFresh (.struct "S" 0 [("b", .bool), ("n", .int 32 true)])).hygienic ["bool_to_json"] = false ∧
+    (genJson bindFresh (.enum "E" 0 [("A", [.string])])).hygienic ["show", "json_escape_string"] = false ∧
+    (genString bindFresh (.struct "S" 0 [("n", .int 8 false)])).hygienic ["uint8_to_string"] = false ∧
+    (genJson bindFresh (.struct "S" 0 [("b", .bool), ("n", .int 32 true)])).hygienic ["bool_to_json_of", "show"] = true := by
+  decide +kernel
+
 /-- **the generated code computes the value functions**: the body of the arm the derive generates
     for a struct (resp. for the value's variant), evaluated under that arm's bindings — literals,
     `+`, the runtime helpers by their meaning (`helperSem`), the field types' own derived methods —
